@@ -8,7 +8,7 @@
 // Units (L = max(a, b) is the size of the ellipsoid, so every residual is scale free):
 //   "len"   length / L           in units of 1e-18, clipped to +-2e9 (vt::q1); 10 nm at WGS84 = 1568 units
 //   "area"  area / L^2           in units of 1e-19, clipped
-//   "azi"   degrees              in units of 1e-16, clipped
+//   "du"    |lon2(unrolled) - lon2| mod 360 in units of 1e-3 ulp of max(|lon2u|, |lon1|, 180)
 //   "udeg"  degrees              in units of 1e-6, clipped
 //   "ppm"   dimensionless        in units of 1e-6, clipped
 //   "pico"  sphere lattice value in units of 1e-12 as limbs [hi, lo] = hi*1e9 + lo (vt::limbs)
@@ -234,7 +234,6 @@ static Miss misses(const Ref& rf, LD s, LD azi, LD Rw) {
 // ------------------------------------------------------------------ quantisation helpers
 static long long qlen(LD v, const EL& E) { return vt::q1(v / E.L, 1e-18L); }
 static long long qarea(LD v, const EL& E) { return vt::q1(v / (E.L * E.L), 1e-19L); }
-static long long qazi(LD v) { return vt::q1(v, 1e-16L); }
 static long long qudeg(LD v) { return vt::q1(v, 1e-6L); }
 static long long qppm(LD v) { return vt::q1(v, 1e-6L); }
 static vector<long long> pico(double v) {
@@ -262,8 +261,6 @@ static int lon_sign(double lon1, double lon2) {
   if (fabsl(r) < 1e-12L || fabsl(r) > 180 - 1e-9L) return 0;
   return r > 0 ? 1 : -1;
 }
-// lateral displacement s * |dazi| (dazi in degrees, reduced)
-static LD lateral(LD s, LD dazi_deg) { return fabsl(s) * fabsl(remainderl(dazi_deg, 360.0L)) * DEGL; }
 
 // distance on the surface between two nearby points (local metric, long double)
 static LD local_dist(const EL& E, double lat1, double lon1, double lat2, double lon2) {
@@ -568,8 +565,5 @@ int main(int argc, char** argv) {
     return 0;
   }
   if (argc >= 4 && string(argv[1]) == "record") { do_record(strtoull(argv[2], 0, 10), atoll(argv[3])); return 0; }
-  if (argc >= 2 && string(argv[1]) == "calib") {       // not used by the check: prints maxima of the residuals per field (calibration aid)
-    return 0;
-  }
   fprintf(stderr, "usage: drv_rhumb replay < vectors | record seed n\n"); return 2;
 }
